@@ -15,6 +15,8 @@ def helper_inline(f, callee, t):
     """inline helpers of the same class and the traits_detail dispatch functions (small, non-recursive)"""
     if len(callee.blocks) > 16:
         return False
+    if callee.short.startswith('get_') or callee.short == 'get':
+        return False    # accessors of sub-objects keep their name: it identifies the target
     if callee.cls and callee.cls == f.cls:
         return True
     if '::traits_detail::' in callee.name:
